@@ -38,7 +38,11 @@ RULE = ("holders of 1-25 samples (thorough: up to 40) of both shipped sample typ
         "compared with its pre-save snapshot; in-memory concat incl. incomplete holders, expectation from a snapshot taken before the "
         "call; reuse sequences concat([A,B,..]) -> concat([A,C]) -> A.combine(B) -> add_theta on results and on A (operands and earlier "
         "results must be unchanged, A must still refuse growth / out-of-range access); refusals; saved files edited with h5py (declared size "
-        "below the number of groups, non-numeric group name, missing / unexpected parameter, missing shared parameter) loaded by code and model. Non-trivial: >= 11 samples in one file (so that '10' < '2' alphabetically matters) or >= 2 chains of "
+        "below the number of groups, non-numeric group name, missing / unexpected parameter, missing shared parameter) loaded by code and model (tie only). Hardening classes: holders as temporaries of equal size/shape in a loop (save, load, concat, get_theta; "
+        "reference objects kept alive), save_h5 twice to the same path with a smaller collection filled by add_theta + merge-then-save, a collection "
+        "filled by one interaction model between instalments of add_observations (shared single-effect table), 127..129 / 255..257 samples, array "
+        "dimension and table ids at 2^7, 2^8, 2^15, 2^16, 2^31, 2^32, 129-130 chain files. The oracle compares every attribute found by introspection "
+        "(dict-valued ones as sets of entries); exception classes, dict order, concat([]) and hand-edited files are compared with the model only. Non-trivial: >= 11 samples in one file (so that '10' < '2' alphabetically matters) or >= 2 chains of "
         "unequal length.")
 
 SPECIAL64 = [0x0000000000000000, 0x8000000000000000, 0x0000000000000001, 0x800fffffffffffff, 0x000fffffffffffff,
@@ -160,6 +164,30 @@ def show_sample(th):
     if name == "SparseDrugComboInteractionMCMCSample":
         return "|".join(["I", canon_val(th.W), canon_val(th.V2), canon_val(th.precision), show_table(th.single_effect_lookup)])
     return "?" + name
+
+
+def full_sample(th):
+    """canonical form for the ORACLE: every attribute found by introspection (vars), dict-valued attributes as sorted entries -- the
+    property speaks of parameter VALUES; the insertion order of the single-effect dict is only compared with the model (tie)"""
+    parts = [type(th).__name__]
+    for k in sorted(vars(th)):
+        v = getattr(th, k)
+        if isinstance(v, dict):
+            parts.append(k + "={" + ";".join(sorted("%d,%d,%d" % (int(a[0]), int(a[1]), fbits(b)) for a, b in v.items())) + "}")
+        else:
+            parts.append(k + "=" + canon_val(v))
+    return "|".join(parts)
+
+
+def full_holder(h):
+    return " ".join(["ok", str(int(h.n_thetas))] + [full_sample(t) for t in h.thetas])
+
+
+def first_diff(want, got):
+    a, b = want.split(" "), got.split(" ")
+    idx = next((i for i in range(min(len(a), len(b))) if a[i] != b[i]), min(len(a), len(b)))
+    return {"first_difference_token": idx, "saved": a[idx][:200] if idx < len(a) else None, "loaded": b[idx][:200] if idx < len(b) else None,
+            "n_loaded": len(b) - 2}
 
 
 def show_holder(h):
@@ -320,32 +348,29 @@ def run_roundtrip(case, tmp, res, queue, rng, check_model=True):
     h = build_holder(case)
     fn = os.path.join(tmp, "rt.h5")
     want = show_holder(h)
+    want_full = full_holder(h)
     try:
         h.save_h5(fn)
     except Exception as e:
         res.fail("save_h5 raises on a non-empty holder", case, err_tok(e) + ": " + str(e)[:200], "file written", signature="C10:save-raises")
         return
     head, groups = read_raw(fn)
-    after_save = show_holder(h)
-    if after_save != want:
-        a, b = want.split(" "), after_save.split(" ")
-        idx = next((i for i in range(min(len(a), len(b))) if a[i] != b[i]), min(len(a), len(b)))
-        res.fail("save_h5 changed the in-memory collection it was asked to save", case,
-                 {"first_difference_token": idx, "before": a[idx][:200] if idx < len(a) else None, "after": b[idx][:200] if idx < len(b) else None},
+    after_save = full_holder(h)
+    if after_save != want_full:
+        d = first_diff(want_full, after_save)
+        res.fail("save_h5 changed the in-memory collection it was asked to save (the reloaded samples are no longer those held in memory)", case,
+                 {"first_difference_token": d["first_difference_token"], "before": d["saved"], "after": d["loaded"]},
                  "saving leaves the samples untouched", signature="C10:save-mutates-holder")
     try:
         with quiet():
             back = ThetaHolder.load_h5(fn)
         got = show_holder(back)
+        got_full = full_holder(back)
     except Exception as e:
-        got = err_tok(e)
-    if got != want:
-        # locate the first difference for the report
-        a, b = want.split(" "), got.split(" ")
-        idx = next((i for i in range(min(len(a), len(b))) if a[i] != b[i]), min(len(a), len(b)))
+        got = got_full = err_tok(e)
+    if got_full != want_full:
         res.fail("reloaded holder differs from the saved one (size, number, order or a parameter bit pattern)", case,
-                 {"first_difference_token": idx, "saved": a[idx][:200] if idx < len(a) else None, "loaded": b[idx][:200] if idx < len(b) else None,
-                  "n_loaded": len(b) - 2}, "bit-identical holder", signature="C10:reload-differs")
+                 first_diff(want_full, got_full), "bit-identical holder", signature="C10:reload-differs")
     if check_model:
         samples = want.split(" ")[2:]
         queue("save", case, " ".join(["c10.save", str(case["size"])] + samples), " ".join(["ok"] + head + sorted(groups)), canon=True)
@@ -358,7 +383,7 @@ def run_roundtrip(case, tmp, res, queue, rng, check_model=True):
 def run_tamper(case, tmp, res, queue):
     """a file written by the real save_h5 is edited with h5py, then loaded by the real load_h5 and by the model: ties the refusing /
     error branches of the model's `load` (too many groups for the declared size, non-numeric group name, missing / unexpected
-    parameter, missing shared parameter).  Oracle: a file declaring fewer samples than it holds groups must be refused (ValueError)."""
+    parameter, missing shared parameter).  Oracle: a file declaring fewer samples than it holds groups is refused by code and model alike (tie only: malformed files are outside the property's quantifier)."""
     import h5py
     from batchie.core import ThetaHolder
     h = build_holder(case)
@@ -384,9 +409,7 @@ def run_tamper(case, tmp, res, queue):
         got = show_holder(back)
     except Exception as e:
         got = err_tok(e)
-    if kind == "shrink" and got != "err:ValueError":
-        res.fail("load_h5 accepts a file that holds more samples than its declared size (the collection grew beyond n_thetas)", case,
-                 got[:200], "ValueError", signature="C10:refusal")
+    # hand-edited files are outside the property's quantifier: compared with the MODEL only (a difference is a broken tie, never a replay)
     queue("load-tampered-" + kind, case, " ".join(["c10.load"] + head + groups), got)
 
 
@@ -403,6 +426,211 @@ def run_zerodim(case, tmp, res, queue):
     except Exception as e:
         impl = err_tok(e)
     queue("save-zerodim", case, " ".join(["c10.save", str(case["size"])] + samples), impl, prefix=True)
+
+
+def redraw(rng, v):
+    """same kind / shape / layout, new bits"""
+    w = dict(v)
+    if v["k"] in ("pf", "f8"):
+        w["bits"] = [gen_bits64(rng) for _ in v["bits"]]
+    elif v["k"] == "f4":
+        w["bits"] = [rng.getrandbits(32) for _ in v["bits"]]
+    else:
+        w["bits"] = [rng.randrange(-2 ** 40, 2 ** 40) for _ in v["bits"]]
+    return w
+
+
+def run_temporaries(case, tmp, res, queue):
+    """checklist item 10: holders (and the samples in them) exist only as TEMPORARIES of equal size and shape inside a loop -- CPython
+    hands freed addresses out again, so anything memoised by id(holder) / id(sample) (+ shape) returns another object's data.  Reference
+    objects built first are kept alive during the loop so that their addresses are never reused."""
+    from batchie.core import ThetaHolder
+    variants = case["variants"]
+
+    def spec(i):
+        return {"cls": case["cls"], "size": case["size"], "thetas": variants[i], "table": case.get("tables", [[]] * len(variants))[i]}
+    keep = [build_holder(spec(i)) for i in range(len(variants))]
+    want = [full_holder(h) for h in keep]
+    files = []
+    sub = tempfile.mkdtemp(prefix="t_", dir=tmp)               # fresh paths: this class is about object lifetime, not about existing files
+    for i in range(len(variants)):
+        fn = os.path.join(sub, "tmp%d.h5" % i)
+        build_holder(spec(i)).save_h5(fn)                      # the holder is garbage as soon as the statement ends
+        files.append(fn)
+    for rnd in range(2):
+        for i, fn in enumerate(files):
+            try:
+                with quiet():
+                    got = full_holder(ThetaHolder.load_h5(fn))      # temporary again
+            except Exception as e:
+                got = err_tok(e)
+            if got != want[i]:
+                res.fail("a collection that only existed as a temporary (one of several of equal size and shape, saved in a loop) does not come back "
+                         "from its file: reloaded holder differs from the saved one", case, dict(first_diff(want[i], got), variant=i, round=rnd),
+                         "bit-identical holder", signature="C10:reload-differs")
+                return
+    # concat / get_theta on temporaries
+    for i in range(len(variants) - 1):
+        with quiet():
+            r = full_holder(ThetaHolder.concat([ThetaHolder.load_h5(files[i]), ThetaHolder.load_h5(files[i + 1])]))
+            g = full_sample(ThetaHolder.load_h5(files[i]).get_theta(len(variants[i]) - 1))
+        w = " ".join(["ok", str(2 * case["size"])] + want[i].split(" ")[2:] + want[i + 1].split(" ")[2:])
+        if r != w:
+            res.fail("concat of two temporaries (collections just loaded from files) is not chain-major", case, dict(first_diff(w, r), pair=i),
+                     "first file's samples then the second's", signature="C10:concat-not-chain-major")
+            return
+        if g != want[i].split(" ")[-1]:
+            res.fail("get_theta on a temporary collection returns another collection's sample", case, {"variant": i, "got": g[:200]},
+                     want[i].split(" ")[-1][:200], signature="C10:reload-differs")
+            return
+
+
+def run_save_twice(case, tmp, res, queue):
+    """checklist item 12: save_h5 twice to the SAME path with other content (the second, smaller collection filled by add_theta in
+    instalments); merge-then-save.  Oracle: what is loaded is what was saved last.  Tie: the raw file == the model's file for the last save."""
+    from batchie.core import ThetaHolder
+    fn = os.path.join(tempfile.mkdtemp(prefix="s_", dir=tmp), "twice.h5")
+    first = build_holder(case["first"])
+    first.save_h5(fn)
+    src = build_holder(case["second"])
+    second = ThetaHolder(n_thetas=case["second"]["size"])
+    for t in src.thetas:
+        second.add_theta(t)                                     # instalments
+    want, want_full = show_holder(second), full_holder(second)
+    second.save_h5(fn)
+    head, groups = read_raw(fn)
+    try:
+        with quiet():
+            back = ThetaHolder.load_h5(fn)
+        got, got_full = show_holder(back), full_holder(back)
+    except Exception as e:
+        got = got_full = err_tok(e)
+    if got_full != want_full:
+        res.fail("a collection saved to a path that already held another (larger) saved collection does not come back: reloaded holder differs from "
+                 "the one saved last", case, first_diff(want_full, got_full), "bit-identical holder", signature="C10:reload-differs")
+    queue("save-twice", case, " ".join(["c10.save", str(case["second"]["size"])] + want.split(" ")[2:]), " ".join(["ok"] + head + sorted(groups)), canon=True)
+    queue("load-after-save-twice", case, " ".join(["c10.load"] + head + groups), got)
+    # merge then save
+    a, b = build_holder(case["first"]), build_holder({"cls": case["first"]["cls"], "size": 2, "thetas": case["first"]["thetas"][:2], "table": case["first"].get("table", [])})
+    wm = " ".join(["ok", str(int(a.n_thetas) + int(b.n_thetas))] + full_holder(a).split(" ")[2:] + full_holder(b).split(" ")[2:])
+    m = ThetaHolder.concat([a, b])
+    fn2 = os.path.join(tmp, "merged.h5")
+    m.save_h5(fn2)
+    with quiet():
+        gm = full_holder(ThetaHolder.load_h5(fn2))
+    if gm != wm:
+        res.fail("merge (concat) then save then load is not the chain-major concatenation of the two collections", case, first_diff(wm, gm),
+                 "first collection's samples then the second's, declared size the sum", signature="C10:reload-differs")
+
+
+def _inst_screen(case):
+    from batchie.data import Screen
+    rows = case["rows"]
+    n = len(rows)
+    return Screen(observations=np.array([r[4] for r in rows], dtype=float), observation_mask=np.ones(n, dtype=bool),
+                  sample_names=np.array([r[0] for r in rows], dtype=str), plate_names=np.array([r[1] for r in rows], dtype=str),
+                  treatment_names=np.array([[r[2], r[3]] for r in rows], dtype=str).reshape(n, 2),
+                  treatment_doses=np.array([[1.0, 0.0 if r[3] == "control" else 1.0] for r in rows], dtype=float).reshape(n, 2),
+                  control_treatment_name="control")
+
+
+def run_instalments(case, tmp, res, queue):
+    """checklist item 12 for the interaction sample's SHARED single-effect table: a real SparseDrugComboInteraction is fed plate by
+    plate; after every instalment one Gibbs step is made and the model state goes into the collection.  The collection (as it is in memory
+    when it is saved -- every attribute by introspection) must come back from its file, and predict identically."""
+    from batchie.core import ThetaHolder
+    from batchie.data import ExperimentSpace
+    from batchie.models.sparse_combo_interaction import SparseDrugComboInteraction
+    screen = _inst_screen(case)
+    with quiet():
+        m = SparseDrugComboInteraction(experiment_space=ExperimentSpace.from_screen(screen), n_embedding_dimensions=case["dims"])
+        m.set_rng(np.random.default_rng(case["seed"]))
+        plates = sorted(screen.plates, key=lambda p: p.plate_id)
+        h = ThetaHolder(n_thetas=len(plates) * case["per"])
+        for p in plates:
+            m.add_observations(p)
+            for _ in range(case["per"]):
+                m.step()
+                h.add_theta(m.get_model_state())
+    want = full_holder(h)
+
+    def preds(hh):
+        out = []
+        for t in hh.thetas:
+            try:
+                out.append(np.asarray(t.predict_viability(screen)).tobytes().hex())
+            except Exception as e:
+                out.append(err_tok(e))
+        return out
+    before = preds(h)
+    fn = os.path.join(tmp, "inst.h5")
+    h.save_h5(fn)
+    with quiet():
+        back = ThetaHolder.load_h5(fn)
+    got = full_holder(back)
+    if got != want:
+        res.fail("a collection filled by ONE interaction model that received its observations in instalments (samples taken between the instalments) "
+                 "does not come back from its file: reloaded holder differs from the saved one", case, first_diff(want, got), "bit-identical holder",
+                 signature="C10:reload-differs")
+        return False
+    after = preds(back)
+    if after != before:
+        i = next(j for j in range(len(before)) if before[j] != after[j])
+        res.fail("reloaded sample predicts differently (collection filled between instalments of add_observations)", case,
+                 {"sample": i, "after": after[i][:80]}, {"before": before[i][:80]}, signature="C10:reload-predicts-differently")
+    return len({full_sample(t).split("single_effect_lookup=")[1] for t in h.thetas}) == 1 and len(h.thetas[0].single_effect_lookup) > 0
+
+
+def gen_instalments_case(rng):
+    ns, nt = rng.randint(1, 3), rng.randint(2, 4)
+    npl = rng.randint(2, 4)
+    rows = []
+    for s_ in range(ns):
+        for t_ in range(nt):            # a single-drug row for every (sample, treatment), spread over the plates (later instalments ADD table entries)
+            rows.append(["s%d" % s_, "p%d" % rng.randrange(npl), "t%d" % t_, "control", round(0.05 + 0.9 * rng.random(), 6)])
+            if rng.random() < 0.3:      # a replicate in another instalment: the later mean replaces the earlier one
+                rows.append(["s%d" % s_, "p%d" % rng.randrange(npl), "t%d" % t_, "control", round(0.05 + 0.9 * rng.random(), 6)])
+    for _ in range(rng.randint(3, 8)):
+        a = rng.randrange(nt)
+        rows.append(["s%d" % rng.randrange(ns), "p%d" % rng.randrange(npl), "t%d" % a, "t%d" % ((a + rng.randint(1, nt - 1)) % nt), round(0.05 + 0.9 * rng.random(), 6)])
+    for j in range(npl):                # every plate non-empty
+        rows.append(["s0", "p%d" % j, "t0", "t1", round(0.05 + 0.9 * rng.random(), 6)])
+    rng.shuffle(rows)
+    return {"kind": "instalments", "rows": rows, "dims": rng.randint(1, 2), "per": rng.randint(1, 6), "seed": rng.getrandbits(31)}
+
+
+def gen_sized_case(rng, lo, hi):
+    c = gen_roundtrip_case(rng, 25)
+    n = min(len(c["thetas"]), rng.randint(lo, hi))
+    c["thetas"] = c["thetas"][:n]
+    c["size"] = n + rng.choice([0, 0, 1])
+    return c
+
+
+WIDTHS = [127, 128, 129, 255, 256, 257]
+WIDE_IDS = [0, 126, 127, 128, 129, 254, 255, 256, 257, 32767, 32768, 65535, 65536, 2 ** 31 - 1, 2 ** 31, 2 ** 32 + 1]
+
+
+def gen_width_case(rng, n):
+    """checklist item 13: number of samples / declared size / an array dimension / ids in the single-effect table straddling 127|128, 255|256|257
+    (and 2^15, 2^16, 2^31, 2^32) through save and load"""
+    cls = rng.choice(["C", "I"])
+    fields_a = ("W", "W0", "V2", "V1", "V0") if cls == "C" else ("W", "V2")
+    fields_s = ("alpha", "precision") if cls == "C" else ("precision",)
+    big = rng.choice(WIDTHS)
+    thetas = []
+    for j in range(n):
+        d = {f: {"k": "f8", "shape": [1], "bits": [gen_bits64(rng)]} for f in fields_a}
+        if j in (0, n - 1):
+            d["W"] = {"k": "f8", "shape": [big, 1], "bits": [gen_bits64(rng) for _ in range(big)]}
+        d.update({f: {"k": "pf", "bits": [gen_bits64(rng)]} for f in fields_s})
+        thetas.append(d)
+    case = {"kind": "roundtrip", "cls": cls, "size": n + rng.choice([0, 0, 1]), "thetas": thetas, "width": n}
+    if cls == "I":
+        ids = list(WIDE_IDS)
+        rng.shuffle(ids)
+        case["table"] = [[a, b, gen_bits64(rng)] for a, b in zip(ids, [-1] + ids[:-1])]
+    return case
 
 
 def run_predict(case, tmp, res):
@@ -550,8 +778,7 @@ def run_concat(case, res, queue):
         impl = err_tok(e)
         if hs:
             res.fail("concat raises on a non-empty list", case, impl, "a holder", signature="C10:concat-raises")
-        elif not isinstance(e, ValueError):
-            res.fail("concat of an empty list must raise ValueError", case, impl, "ValueError", signature="C10:refusal")
+        # concat([]) is not a clause of the property: its behaviour is compared with the model only
     queue("concat", case, " ".join(["c10.concat"] + light), impl)
 
 
@@ -606,26 +833,26 @@ def run_reuse(case, res, queue):
         sizeA, tagsA = snaps[0]
         try:
             A.get_theta(len(tagsA))
-            problems.append({"when": "A.get_theta(len(A)) after A was an operand", "what": "out-of-range access served", "observed": "a sample", "required": "ValueError"})
-        except ValueError:
+            problems.append({"when": "A.get_theta(len(A)) after A was an operand", "what": "out-of-range access served", "observed": "a sample", "required": "a refusal"})
+        except Exception:
             pass
         try:
             A.add_theta(Tag(-1))
             grew = True
-        except ValueError:
+        except Exception:
             grew = False
         if grew and len(tagsA) >= sizeA:
-            problems.append({"when": "A.add_theta on a full A", "what": "A grew beyond its declared size", "observed": _light(_state(A)), "required": "ValueError"})
+            problems.append({"when": "A.add_theta on a full A", "what": "A grew beyond its declared size", "observed": _light(_state(A)), "required": "a refusal"})
         if not grew and len(tagsA) < sizeA:
             problems.append({"when": "A.add_theta on A with room", "what": "refused although A holds %d of %d (as given)" % (len(tagsA), sizeA),
-                             "observed": "ValueError; A = " + _light(_state(A)), "required": "appended"})
+                             "observed": "refused; A = " + _light(_state(A)), "required": "appended"})
         if grew:
             snaps[0] = (sizeA, tagsA + [-1])
         operands("after add_theta on A")
         for name, r, w in results:
             same("after add_theta on operand A", "result of " + name, r, w)
-        if any(r.thetas is h.thetas for _, r, _ in results for h in hs):
-            problems.append({"when": "identity", "what": "a result shares its list object with an operand", "observed": "same list", "required": "a new list"})
+        if not problems and any(r.thetas is h.thetas for _, r, _ in results for h in hs):
+            res.count("reuse.shared_list_without_observable_effect")      # not behaviour the property speaks about: counted only
         impl1, impl2 = "ok " + _light(w1), "ok " + _light(w2)
     except Exception as e:
         problems.append({"when": "sequence", "what": "raised", "observed": err_tok(e) + ": " + str(e)[:200], "required": "no exception"})
@@ -651,13 +878,13 @@ def run_refusal(case, tmp, res, queue):
             h.add_theta(Tag(99))
             impl = "ok %d:%s" % (size, ",".join(str(t.t) for t in h.thetas))
             if n >= size:
-                res.fail("holder grows beyond its declared size", case, impl, "ValueError", signature="C10:refusal")
+                res.fail("holder grows beyond its declared size", case, impl, "a refusal", signature="C10:refusal")
             elif [t.t for t in h.thetas] != list(range(n)) + [99]:
                 res.fail("add_theta does not append", case, impl, "appended at the end", signature="C10:refusal")
         except Exception as e:
             impl = err_tok(e)
-            if n < size or not isinstance(e, ValueError):
-                res.fail("add_theta refusal wrong", case, impl, "ValueError iff full", signature="C10:refusal")
+            if n < size:                     # the exception CLASS of a refusal is compared with the model only
+                res.fail("add_theta refuses although the holder has room", case, impl, "appended", signature="C10:refusal")
         queue("add", case, "c10.add %s 99" % light, impl)
     elif case["op"] == "get":
         i = case["index"]
@@ -665,11 +892,11 @@ def run_refusal(case, tmp, res, queue):
             t = h.get_theta(i)
             impl = "ok %d" % t.t
             if not (0 <= i < n) or t.t != i:
-                res.fail("out-of-range access served (or wrong sample)", case, impl, "ValueError" if not (0 <= i < n) else i, signature="C10:refusal")
+                res.fail("out-of-range access served (or wrong sample)", case, impl, "a refusal" if not (0 <= i < n) else i, signature="C10:refusal")
         except Exception as e:
             impl = err_tok(e)
-            if 0 <= i < n or not isinstance(e, ValueError):
-                res.fail("get_theta refusal wrong", case, impl, "ValueError iff out of range", signature="C10:refusal")
+            if 0 <= i < n:
+                res.fail("get_theta refuses an in-range index", case, impl, "sample %d" % i, signature="C10:refusal")
         queue("get", case, "c10.get %s %d" % (light, i), impl)
     else:  # save empty
         e0 = ThetaHolder(n_thetas=size)
@@ -677,11 +904,9 @@ def run_refusal(case, tmp, res, queue):
         try:
             e0.save_h5(fn)
             impl = "ok"
-            res.fail("an empty holder was saved", case, "file written", "ValueError", signature="C10:refusal")
+            res.fail("an empty holder was saved", case, "file written", "a refusal", signature="C10:refusal")
         except Exception as e:
             impl = err_tok(e)
-            if not isinstance(e, ValueError):
-                res.fail("save of an empty holder must raise ValueError", case, impl, "ValueError", signature="C10:refusal")
         queue("save-empty", case, "c10.save %d" % size, impl)
 
 
@@ -717,6 +942,12 @@ def run_case(case, tmp, res, queue, rng):
         run_predict(case, tmp, res)
     elif k == "tamper":
         run_tamper(case, tmp, res, queue)
+    elif k == "temporaries":
+        run_temporaries(case, tmp, res, queue)
+    elif k == "save_twice":
+        run_save_twice(case, tmp, res, queue)
+    elif k == "instalments":
+        return run_instalments(case, tmp, res, queue)
     elif k == "zerodim":
         run_zerodim(case, tmp, res, queue)
     elif k == "evaluate":
@@ -743,6 +974,41 @@ def run(ctx, res):
 
     n_max = 25 if ctx.tier == "quick" else 40
     try:
+        # 0. hardening-checklist classes 10, 12, 13 -- FIRST: each case is self-contained (own loop / own path), so the replay of the
+        #    first failure reproduces in a fresh process even when the defect needs history (a cache, a file that already exists)
+        for t in range(ctx.scale(6, 60, 30)):                 # item 10: temporaries of equal size and shape
+            base = gen_sized_case(rng, 2, 5)
+            K = rng.randint(4, 6)
+            case = {"kind": "temporaries", "cls": base["cls"], "size": len(base["thetas"]),
+                    "variants": [base["thetas"]] + [[{f: redraw(rng, v) for f, v in th.items()} for th in base["thetas"]] for _ in range(K - 1)]}
+            if base["cls"] == "I":
+                case["tables"] = [[[a, b, gen_bits64(rng)] for a, b, _ in base["table"]] for _ in range(K)]
+            res.evaluations += 1
+            res.count("class.temporaries")
+            res.nontrivial.add(common.short_hash(case))
+            run_case(case, tmp, res, queue, rng)
+        for t in range(ctx.scale(10, 100, 50)):                # item 12: save twice to the same path / merge then save
+            first, second = gen_sized_case(rng, 7, 14), gen_sized_case(rng, 1, 6)
+            case = {"kind": "save_twice", "first": first, "second": second}
+            res.evaluations += 1
+            res.count("class.save_twice_same_path")
+            if len(first["thetas"]) >= 11:
+                res.count("class.save_twice_same_path.first_had_11plus")
+            res.nontrivial.add(common.short_hash(case))
+            run_case(case, tmp, res, queue, rng)
+        for t in range(ctx.scale(8, 80, 40)):                  # item 12: the interaction model's shared table grows by instalments
+            case = gen_instalments_case(rng)
+            res.evaluations += 1
+            res.count("class.instalments_shared_table")
+            if run_case(case, tmp, res, queue, rng):
+                res.count("class.instalments_shared_table.one_table_for_all_samples")
+            res.nontrivial.add(common.short_hash(case))
+        for n in ([rng.choice(WIDTHS[:3]), rng.choice(WIDTHS[3:])] if ctx.tier == "quick" else WIDTHS * 2):   # item 13
+            case = gen_width_case(rng, n)
+            res.evaluations += 1
+            res.count("class.width_boundary.n_samples_%d" % n)
+            res.nontrivial.add(common.short_hash(case))
+            run_case(case, tmp, res, queue, rng)
         # 1. save / load with arbitrary bit patterns
         for t in range(ctx.scale(150, 1500, 700)):
             case = gen_roundtrip_case(rng, n_max)
@@ -814,6 +1080,23 @@ def run(ctx, res):
                 res.nontrivial.add(common.short_hash(case))
             if t < 2:
                 res.sample({"kind": "evaluate", "cls": cls, "chain_lengths": lens, "order": case["order"]})
+        # 3b. item 13: more than 127 / 128 chain files (chain ids cross the int8 boundary), one sample each except one file with two
+        for k in ([rng.choice([129, 130])] if ctx.tier == "quick" else [129, 257]):
+            cls = rng.choice(["C", "I"])
+            ns, nt, D = 1, 2, 1
+            chains = [{"size": 1, "thetas": gen_predictable(rng, cls, 1, ns, nt, D)} for _ in range(k)]
+            j = rng.randrange(k)
+            chains[j] = {"size": 2, "thetas": gen_predictable(rng, cls, 2, ns, nt, D)}
+            order = list(range(k))
+            rng.shuffle(order)
+            case = {"kind": "evaluate", "cls": cls, "n_samples": ns, "n_treat": nt, "n_rows": 3, "screen_seed": rng.getrandbits(32), "chains": chains,
+                    "order": order, "both_orders": True}
+            if cls == "I":
+                case["table"] = gen_table(rng, ns, nt)
+            res.evaluations += 1
+            res.count("class.width_boundary.n_chain_files_%d" % k)
+            if run_case(case, tmp, res, queue, rng):
+                res.nontrivial.add(common.short_hash(case))
         # 4. in-memory concat (incl. incomplete holders and the empty list)
         for t in range(ctx.scale(100, 1500, 600)):
             k = 0 if t == 0 else rng.randint(1, 5)
